@@ -411,7 +411,7 @@ func TestCatalogue(t *testing.T) {
 	const test = "Catalogue"
 	hx.Rule(test, "fixed cases: repository testdata and a module with unnamed globals, an unnamed function and unnamed locals, printed by 8 goroutines calling String() from both start states")
 	texts := []string{"@0 = global i32 1\n@1 = global i32 2\ndefine i32 @2(i32) {\n  %2 = add i32 %0, 1\n  %3 = load i32, i32* @0\n  %4 = add i32 %2, %3\n  ret i32 %4\n}\n!named = !{!0}\n!0 = !{!{i32 1}}\n"}
-	for _, f := range corpus.RepoTestdata() {
+	for _, f := range corpus.Fixed() {
 		texts = append(texts, f.Text)
 	}
 	for i, x := range texts {
